@@ -423,24 +423,50 @@ def render_c15(vec):
     body = {m: [] for m in mods}
     augments = {m: [] for m in mods}
 
+    # further statements carried by the node of statement j (several musts / a when on ONE node)
+    extras = {}
+    for k, e in enumerate(vec["stmts"], 1):
+        if e.get("on", 0):
+            extras.setdefault(e["on"], []).append((k, e))
+
     def leaf(i, s, ind, plain=False):
         x, t = "x%d" % i, '"%s"' % s["text"]
         if plain:
             return [(ind + "leaf %s { type string; }" % x, None)]
+        same = [(k, e) for k, e in extras.get(i, []) if e["place"] == "same"]
+        also = [(k, "parent") for k, _ in same]
+        whens = [(ind + ' when "%s";' % e["text"], (k, "expr")) for k, e in same if e["kind"] == "when"]
+        musts = [(ind + ' must "%s";' % e["text"], (k, "expr")) for k, e in same if e["kind"] == "must"]
         if s["kind"] == "must":
-            return [(ind + "leaf %s {" % x, (i, "parent")), (ind + " type string;", None), (ind + " must %s;" % t, (i, "expr")), (ind + "}", None)]
+            return [(ind + "leaf %s {" % x, [(i, "parent")] + also)] + whens + [(ind + " type string;", None), (ind + " must %s;" % t, (i, "expr"))] \
+                   + musts + [(ind + "}", None)]
         if s["kind"] == "when":
-            return [(ind + "leaf %s {" % x, (i, "parent")), (ind + " when %s;" % t, (i, "expr")), (ind + " type string;", None), (ind + "}", None)]
-        return [(ind + "leaf %s {" % x, (i, "grand")), (ind + " type leafref {", (i, "parent")), (ind + "  path %s;" % t, (i, "expr")),
-                (ind + " }", None), (ind + "}", None)]
+            return [(ind + "leaf %s {" % x, [(i, "parent")] + also), (ind + " when %s;" % t, (i, "expr")), (ind + " type string;", None)] + musts + [(ind + "}", None)]
+        return [(ind + "leaf %s {" % x, [(i, "grand")] + also)] + whens + [(ind + " type leafref {", (i, "parent")), (ind + "  path %s;" % t, (i, "expr")),
+                (ind + " }", None)] + musts + [(ind + "}", None)]
+
+    def uses_of(i, u, t, name):
+        """The uses statement copying the node of statement i, with the musts that refine adds to it."""
+        ref = [(k, e) for k, e in extras.get(i, []) if e["place"] == "refine-on"]
+        if not ref:
+            return [("  uses %s%s;" % (pf(u, t), name), None)]
+        return [("  uses %s%s {" % (pf(u, t), name), None), ("   refine x%d {" % i, [(k, "parent") for k, _ in ref])] \
+               + [('    must "%s";' % e["text"], (k, "expr")) for k, e in ref] + [("   }", None), ("  }", None)]
 
     for i, s in enumerate(vec["stmts"], 1):
         T, U, V, place = s["T"], s["U"], s["V"], s["place"]
+        if s.get("on", 0):
+            continue                      # rendered with the node that carries it
         if place == "direct":
             body[T] += leaf(i, s, "  ")
+            for k, e in extras.get(i, []):
+                if e["place"] == "deviate-on":
+                    D = e["T"]
+                    augments[D] += [(' deviation "/%st%s/%sx%d" {' % (pf(D, T), T, pf(D, T), i), None), ("  deviate add {", (k, "parent")),
+                                    ('   must "%s";' % e["text"], (k, "expr")), ("  }", None), (" }", None)]
         elif place in ("grp-local", "grp-cross"):
             groupings[T] += [(" grouping g%d {" % i, None)] + leaf(i, s, "  ") + [(" }", None)]
-            body[U].append(("  uses %sg%d;" % (pf(U, T), i), None))
+            body[U] += uses_of(i, U, T, "g%d" % i)
         elif place == "grp-unused":
             groupings[T] += [(" grouping g%d {" % i, None)] + leaf(i, s, "  ") + [(" }", None)]
         elif place == "typedef-unused":
@@ -484,8 +510,8 @@ def render_c15(vec):
         L += [(" container t%s {" % m, None), ("  leaf l0 { type string; }", None)] + body[m] + [(" }", None)]
         L += augments[m] + [("}", None)]
         for n, (txt, tag) in enumerate(L, 1):
-            if tag:
-                lines_of.setdefault(tag[0], []).append((m + ".yang", n))
+            for tg in (tag if isinstance(tag, list) else [tag] if tag else []):
+                lines_of.setdefault(tg[0], []).append((m + ".yang", n))
         out.append(dict(name=m, file=m + ".yang", text="\n".join(t for t, _ in L) + "\n"))
     return out, lines_of
 
@@ -499,7 +525,7 @@ def run_c15(ctx):
     if "Invariant NoHazard is violated" not in hz["out"]:
         raise Infra("self test failed: no reachable state has a statement sitting in a module that binds its prefix differently")
     g = ctx.tlc("PrefixScopeGen", "PrefixScopeGen.cfg", workers=12, timeout=1500, heap="10g",
-                consts={"NSample": 40 if quick else 0, "NRand": 120 if quick else 1500}, extra=["-seed", str(ctx.seed)])
+                consts={"NSample": 40 if quick else 0, "NRand": 120 if quick else 1500, "NStack": 150 if quick else 2500}, extra=["-seed", str(ctx.seed)])
     vecs = []
     for f in sorted(os.listdir(g["dir"])):
         if re.match(r"pvec_.*\.ndjson$", f):
@@ -519,17 +545,23 @@ def run_c15(ctx):
         raise Infra("cc run returned %d results for %d cases" % (len(res), len(cases)))
     lines, nxp = [], 0
     for v, c, o, lo in zip(vecs, cases, res, lines_of):
-        inst = dict(cfg=v["cfg"], stmts=[{k: s[k] for k in ("kind", "place", "T", "U", "V", "e", "pf")} for s in v["stmts"]])
+        inst = dict(cfg=v["cfg"], stmts=[{k: s[k] for k in ("kind", "place", "T", "U", "V", "e", "pf", "on", "hp")} for s in v["stmts"]])
         lines.append(json.dumps(dict(ev="init", id=c["id"], inst=inst), separators=(",", ":")))
         verdicts = set(r["verdict"] for r in o["runs"])
         verdict = "crash" if "crash" in verdicts else "timeout" if "timeout" in verdicts else "nondeterministic" if len(verdicts) > 1 else o["runs"][0]["verdict"]
         named, missing = [], []
         if verdict == "ok":
+            taken = set()
             for i, s in enumerate(v["stmts"], 1):
-                xs = [x for x in o["xps"] if x["kind"] == s["kind"] and x["path"].rsplit(":", 1)[-1] == "x%d" % i]
+                node = "x%d" % (s.get("on", 0) or i)
+                nsame = sum(1 for j, q in enumerate(v["stmts"], 1) if q["kind"] == s["kind"] and "x%d" % (q.get("on", 0) or j) == node)
+                xs = [(n, x) for n, x in enumerate(o["xps"]) if x["kind"] == s["kind"] and x["path"].rsplit(":", 1)[-1] == node and n not in taken]
+                if nsame > 1:          # several statements of the kind on one node: each machine is told by its source text
+                    xs = [(n, x) for n, x in xs if x["expr"] == s["text"]]
                 if not xs and s["observable"]:
                     missing.append(i)
-                for x in xs[:1]:
+                for n, x in xs[:1]:
+                    taken.add(n)
                     nxp += 1
                     names = [dict(ns=n.split(" ", 1)[0], l=n.split(" ", 1)[1]) for n in x["names"]]
                     lines.append(json.dumps(dict(ev="xp", id=c["id"], stmt=i, expr=x["expr"], names=names), separators=(",", ":")))
